@@ -1,16 +1,130 @@
 import FcpptProofs.C03.Parse
 /-!
 # C03 — property theorems (see notes/C03.md for the clause-by-clause coverage)
+
+`parse f p st c` is the model of `Parser::parse(state, context)`; `f` is fuel (`PErr.diverge` = does not
+terminate), an argument is *(original index, text)* and the third component of a success is the consumption
+log *(index ↦ label of the leaf that took it)*.  All statements hold for every parser `p : OP`, every state /
+argument vector, every context and every fuel.
 -/
 namespace Fcppt.C03
 
-/-- every successful `Parser::parse` leaves a sublist of its input state (order preserved) -/
+/-! ## accounting: nothing dropped, nothing used twice, order preserved -/
+
+/-- every successful `Parser::parse` leaves a sublist of its input state (relative order preserved) -/
 theorem parse_state_sublist {f : Nat} {p : OP} {st : List Arg} {c : Ctx} {st' : List Arg} {r : Rec} {lg : Log}
     (h : parse f p st c = .ok (st', r, lg)) : st'.Sublist st := (parse_acc f p st c h).sub
 
-/-- remaining arguments and logged (consumed) arguments partition the input state -/
+/-- remaining arguments and logged (consumed) arguments partition the input state: state' = state minus log -/
 theorem parse_log_partition {f : Nat} {p : OP} {st : List Arg} {c : Ctx} {st' : List Arg} {r : Rec} {lg : Log}
     (h : parse f p st c = .ok (st', r, lg)) : (st'.map Prod.fst ++ lg.map Prod.fst).Perm (st.map Prod.fst) :=
   (parse_acc f p st c h).perm
+
+private theorem idx_index (args : List String) : (index args).map Prod.fst = List.range args.length := by
+  unfold index
+  rw [List.map_fst_zip]
+  simp
+
+/-- **`fcppt::options::parse` succeeded ⇒ the consumption log is a permutation of all argument indices.** -/
+theorem parse_accounts_all {f : Nat} {p : OP} {args : List String} {r : Rec} {lg : Log}
+    (h : parseTop f p args = .ok (r, lg)) : (lg.map Prod.fst).Perm (List.range args.length) := by
+  unfold parseTop parseToEmpty at h
+  split at h
+  · cases h
+  · cases h
+  · rename_i st' r' lg' hp
+    split at h
+    · rename_i he
+      injection h with h; injection h with h1 h2; subst h1 h2
+      have := (parse_acc _ _ _ _ hp).perm
+      have hnil : st' = [] := by cases st' <;> simp_all
+      subst hnil
+      simpa [idx, lidx, idx_index] using this
+    · cases h
+
+/-- … i.e. every argument position is consumed by exactly one leaf parser, and nothing else is logged -/
+theorem parse_each_index_exactly_once {f : Nat} {p : OP} {args : List String} {r : Rec} {lg : Log}
+    (h : parseTop f p args = .ok (r, lg)) :
+    (∀ i, i < args.length → (lg.map Prod.fst).count i = 1) ∧ (∀ i ∈ lg.map Prod.fst, i < args.length) ∧
+      lg.length = args.length := by
+  have hp := parse_accounts_all h
+  refine ⟨fun i hi => ?_, fun i hi => ?_, ?_⟩
+  · rw [List.perm_iff_count.mp hp i]
+    have h1 : List.count i (List.range args.length) ≤ 1 := List.nodup_iff_count.mp List.nodup_range i
+    have h2 : 0 < List.count i (List.range args.length) := List.count_pos_iff.mpr (List.mem_range.mpr hi)
+    omega
+  · exact List.mem_range.mp (hp.mem_iff.mp hi)
+  · simpa using hp.length_eq
+
+/-- the same for `parse_help` when it returns a parse result -/
+theorem parseHelp_accounts_all {f : Nat} {hsh : Option String} {hlg : String} {p : OP} {args : List String} {r : Rec}
+    {lg : Log} (h : parseHelp f hsh hlg p args = .ok (.result r lg)) : (lg.map Prod.fst).Perm (List.range args.length) := by
+  unfold parseHelp at h
+  split at h
+  · cases h
+  · cases h
+  · rename_i hh
+    injection h with h; injection h with h1 h2; subst h1 h2
+    exact parse_accounts_all (p := helpSum hsh hlg p) hh
+  · cases h
+
+/-! ## combinators: decision logic stated outright -/
+
+/-- product: left parser first, the right parser continues on the state the left one left; no roll-back -/
+theorem product_left_to_right (f : Nat) (a b : OP) (st : List Arg) (c : Ctx) :
+    parse (f + 1) (.prod a b) st c =
+      match parse f a st c with
+      | .error e => .error e
+      | .ok (st1, r1, lg1) =>
+        match parse f b st1 c with
+        | .error e => .error e
+        | .ok (st2, r2, lg2) => .ok (st2, r1 ++ r2, lg1 ++ lg2) := by
+  cases h1 : parse f a st c with
+  | error e => simp only [parse, h1]
+  | ok t =>
+    obtain ⟨st1, r1, lg1⟩ := t
+    cases h2 : parse f b st1 c with
+    | error e => simp only [parse, h1, h2]
+    | ok t2 => obtain ⟨st2, r2, lg2⟩ := t2; simp only [parse, h1, h2]
+
+/-- sum: if the left parser succeeds, its result is the result (the right parser is not consulted) -/
+theorem sum_first_success {f : Nat} {l : String} {a b : OP} {st : List Arg} {c : Ctx} {st1 : List Arg} {r1 : Rec} {lg1 : Log}
+    (h : parse f a st c = .ok (st1, r1, lg1)) :
+    parse (f + 1) (.sum l a b) st c = .ok (st1, [(l, .left (.recd r1))], lg1) := by
+  simp only [parse, h]
+
+/-- sum: if the left parser fails, the right parser runs on the **original** state (roll-back of whatever the
+left parser had consumed); only the right parser's consumption is logged -/
+theorem sum_rollback {f : Nat} {l : String} {a b : OP} {st : List Arg} {c : Ctx} {e : PErr} {st2 : List Arg} {r2 : Rec} {lg2 : Log}
+    (ha : parse f a st c = .error e) (he : e ≠ .diverge) (hb : parse f b st c = .ok (st2, r2, lg2)) :
+    parse (f + 1) (.sum l a b) st c = .ok (st2, [(l, .right (.recd r2))], lg2) := by
+  cases e with
+  | diverge => exact absurd rfl he
+  | other => simp only [parse, ha, hb]
+  | missing m => simp only [parse, ha, hb]
+
+/-- sum: both fail ⇒ `missing` only if both are `missing` -/
+theorem sum_both_fail {f : Nat} {l : String} {a b : OP} {st : List Arg} {c : Ctx} {e1 e2 : PErr}
+    (ha : parse f a st c = .error e1) (h1 : e1 ≠ .diverge) (hb : parse f b st c = .error e2) :
+    parse (f + 1) (.sum l a b) st c = .error (combineErrors e1 e2) := by
+  cases e1 with
+  | diverge => exact absurd rfl h1
+  | other => simp only [parse, ha, hb]
+  | missing m => simp only [parse, ha, hb]
+
+/-- optional is transactional (after fix 6e48692): an inner `missing` — even one noticed after arguments were
+consumed — gives back the state exactly as it was and logs nothing; `other` errors are not swallowed -/
+theorem optional_missing_vs_other (f : Nat) (q : OP) (st : List Arg) (c : Ctx) :
+    (∀ m, parse f q st c = .error (.missing m) →
+      parse (f + 1) (.optional q) st c = .ok (st, q.labels.map fun l => (l, .none), [])) ∧
+    (parse f q st c = .error .other → parse (f + 1) (.optional q) st c = .error .other) ∧
+    (∀ st' r lg, parse f q st c = .ok (st', r, lg) →
+      parse (f + 1) (.optional q) st c = .ok (st', r.map fun (l, v) => (l, .some v), lg)) := by
+  refine ⟨fun m h => ?_, fun h => ?_, fun st' r lg h => ?_⟩ <;> simp only [parse, h]
+
+/-- the defect repaired by 6e48692, as a regression example: `optional(switch f * argument a)` on `["--f"]`
+keeps `--f` in the state (so that `parse` reports the leftover) instead of dropping it -/
+example : parse 10 (.optional (.prod (OP.switch "a" none "f") (.arg "b" .int))) [(0, "--f")] [] =
+    .ok ([(0, "--f")], [("a", .none), ("b", .none)], []) := by rfl
 
 end Fcppt.C03
